@@ -230,10 +230,13 @@ func run(c Case) ev.Verdict {
 	// implementation, channel), so with several invalid values any of their error classes may
 	// surface first
 	wantErrs := map[string]bool{}
+	mayReject := false
 
 	for _, o := range eff {
 		scratch := model{}
-		if e := catalogue[o.Name].apply(o, scratch, cx); e != "" {
+		if e := catalogue[o.Name].apply(o, scratch, cx); e == "maybe-bad-option" {
+			mayReject = true
+		} else if e != "" {
 			wantErrs[e] = true
 		}
 	}
@@ -313,12 +316,18 @@ func run(c Case) ev.Verdict {
 	}
 
 	if len(wantErrs) == 0 {
+		if err != nil && mayReject && errors.Is(err, util.ErrBadOption) {
+			v.Classes = append(v.Classes, "rejects-invalid-foreign-option")
+
+			return v
+		}
+
 		if err != nil {
 			return ev.Fail("constructor failed: %v (ctor %s, options %+v)", err, c.Ctor, eff)
 		}
 	} else {
 		okErr := (wantErrs["file-not-found"] && errors.Is(err, util.ErrFileNotFoundError)) ||
-			((wantErrs["bad-option"] || wantErrs["bad-option-any"]) && errors.Is(err, util.ErrBadOption))
+			((wantErrs["bad-option"] || wantErrs["bad-option-any"] || mayReject) && errors.Is(err, util.ErrBadOption))
 		if !okErr {
 			return ev.Fail("invalid option value(s) %v: constructor returned %v (options %+v)", wantErrs, err, eff)
 		}
